@@ -243,6 +243,28 @@ def mk_prelude(rng):
     return pre + [full[:keep]]
 
 
+_BY_BODY = b'\x02by\x02ch' + b'bystander-payload'
+_BY_FRAME = struct.pack('!iB', 5 + len(_BY_BODY), 3) + _BY_BODY
+_BY_PART, _BY_REST = _BY_FRAME[:11], _BY_FRAME[11:]
+
+
+class Bystander(object):
+    """ANOTHER decoder alive in the same process, holding the beginning of a frame while the case runs: decoders are
+    per connection, what one of them is fed, or the construction / reset() of one of them, is nothing to the others"""
+
+    def __init__(self):
+        self.u = P.Unpacker()
+        impl_feed(self.u, _BY_PART)
+
+    def check(self, res, script):
+        fr, rest, err = impl_feed(self.u, _BY_REST)
+        if err != 'none' or rest != 0 or fr != [(3, _BY_BODY)]:
+            for prop in ('C06', 'C07'):
+                res.violation(prop, 'decoders-share-state', 'a second decoder that held the first 11 bytes of a frame while this case ran on another decoder, and was then fed the rest, gave %d frame(s), rest %d, %s: decoders share state' % (len(fr), rest, err), script)
+            return False
+        return True
+
+
 def fresh_decoder(prelude):
     """a new Unpacker, or - with a prelude - one that was fed those chunks (drained after each) and then reset():
     from then on it must behave exactly like a new one"""
@@ -460,7 +482,17 @@ def run_chunked(res, drv, frames, tail, chunks, script, check_prompt=True):
 
 def _run_chunked(res, drv, frames, tail, chunks, script, check_prompt=True):
     res.evaluations += 1
+    by = Bystander() if res.evaluations % 7 == 3 else None
     u = fresh_decoder([hx_(c) for c in script.get('prelude', [])])
+    if by is not None:
+        try:
+            return _run_chunked_inner(res, drv, frames, tail, chunks, script, check_prompt, u)
+        finally:
+            by.check(res, script)
+    return _run_chunked_inner(res, drv, frames, tail, chunks, script, check_prompt, u)
+
+
+def _run_chunked_inner(res, drv, frames, tail, chunks, script, check_prompt, u):
     got = []
     fed = 0
     ends = []
@@ -707,7 +739,17 @@ def run_arbitrary(res, drv, chunks, script):
 
 def _run_arbitrary(res, drv, chunks, script):
     res.evaluations += 1
+    by = Bystander() if res.evaluations % 7 == 3 else None
     u = fresh_decoder([hx_(c) for c in script.get('prelude', [])])
+    if by is not None:
+        try:
+            return _run_arbitrary_inner(res, drv, chunks, script, u)
+        finally:
+            by.check(res, script)
+    return _run_arbitrary_inner(res, drv, chunks, script, u)
+
+
+def _run_arbitrary_inner(res, drv, chunks, script, u):
     lines, impl_lines = ['c.reset'], []
     total = b''
     consumed = 0
